@@ -31,8 +31,13 @@ impl<'a> U<'a> {
     }
 }
 
+/// set by an explorer process that works on one layout only (255 = take the layout from the string)
+pub static FORCE_SHAPE: std::sync::atomic::AtomicU8 = std::sync::atomic::AtomicU8::new(255);
+
 pub fn cfg_from(u: &mut U) -> Cfg {
-    u.shape = u.byte() & 3;
+    let b = u.byte();
+    let f = FORCE_SHAPE.load(std::sync::atomic::Ordering::Relaxed);
+    u.shape = if f < 4 { f } else { b & 3 };
     if u.shape < 3 {
         return Cfg { addr: 0x23, msg_types: vec![0x7E, 0x05], vendor_ids: vec![(0, 0x1414, 4), (1, 0x0000_0157, 2)] };
     }
@@ -102,15 +107,28 @@ pub fn run_bytes(s: &mut Session, u: &mut U) {
             }
             return;
         }
+        let mut tyb: Option<(u8, Vec<u8>)> = None;
         let p = if u.shape == 1 {
             let n = u.left().min(40); let body = u.take(n);
             build_packet(0x23, src, 1, 0x23, src, 0xC8, 0, &body)
         } else {
             let ty = u.byte(); let n = u.left().min(48); let body = u.take(n);
+            tyb = Some((ty, body.clone()));
             build_packet(0x23, src, 1, 0x23, src, 0xC8, ty, &body)
         };
         s.op(Op::Decode(p.clone()));
         s.op(Op::Process(p, vec![0u8; 64]));
+        // the same body through the library's own encoder for that message type, and back through its decoder
+        if let Some((ty, body)) = tyb {
+            let id = match ty { 5 | 6 => Some(32u32), 0x7E => Some(31), 0x7F => Some(33), 0 => Some(30), _ => None };
+            if let Some(id) = id {
+                let c = Call { req: true, id, nums: vec![0x23, 0, ty as u32], lists: vec![vec![], body] };
+                let cap = expected_len(&c).unwrap_or(12);
+                if let Obs::Enc(Some(m), out) = s.op(enc_op(&c, vec![0u8; cap])) {
+                    if m <= out.len() { s.op(Op::Decode(out[..m].to_vec())); }
+                }
+            }
+        }
         return;
     }
     let keys = all_keys();
